@@ -6,7 +6,7 @@ import sys, os, subprocess, json, shutil, glob
 pid, m = sys.argv[1], sys.argv[2]
 demo_args = sys.argv[3:] or ["--features", "devices"]
 wt = "/tmp/wt/" + pid
-out = "/tmp/wtout/%s/%s" % (pid, m)
+out = "%s/%s/%s" % (os.environ.get("WTOUT", "/tmp/wtout"), pid, m)
 env = dict(os.environ, CARGO_NET_OFFLINE="true")
 
 
